@@ -110,4 +110,31 @@ theorem notifyObsOk_sound (s : NSt) (raw : List Nat) (hs : List (Nat × List Nat
     rw [hp, hperm.mem_iff]
     exact List.mem_map.mpr ⟨(x.1, p), mem_of_assocGet _ _ _ hp, rfl⟩
 
+/-- the judge may place the two brackets of a `Notify` at DIFFERENT registry states (`s₁`: the `Enabled()` check, `s₂`: the
+    walk; other goroutines' brackets in between): what it accepts is an allowed delivery for the state `sL` of
+    `C17.notify_delivers_snapshot` — `s₂`, or `s₁` if the check saw the notifier disabled -/
+theorem notifyObsOk_sound_mixed (s₁ s₂ : NSt) (raw : List Nat) (hs : List (Nat × List Nat))
+    (h : notifyObsOk s₁.enabled (collectTbl s₂ raw) raw false hs = true) :
+    (hs.map (·.1)).Perm (targetsOf (notify (if s₁.enabled then s₂ else s₁) raw)) ∧
+    (∀ x ∈ hs, x.2 = joinDots (normalize raw)) ∧
+    (∀ x ∈ hs, ((assocGet (collectTbl (if s₁.enabled then s₂ else s₁) raw) x.1).getD 0, x.1) ∈
+      notify (if s₁.enabled then s₂ else s₁) raw) ∧
+    (hs.map (fun x => (assocGet (collectTbl (if s₁.enabled then s₂ else s₁) raw) x.1).getD 0)).Pairwise (fun a b => a ≥ b) := by
+  cases he : s₁.enabled with
+  | true =>
+    simp only [if_true]
+    apply notifyObsOk_sound s₂ raw hs
+    rw [he] at h
+    unfold notifyObsOk at h ⊢
+    simpa only [collectTbl_if, if_true] using h
+  | false =>
+    rw [he] at h
+    unfold notifyObsOk at h
+    simp only [Bool.false_eq_true, if_false, Bool.not_false, Bool.true_and, Bool.and_eq_true, beq_iff_eq,
+      List.length_nil, List.length_eq_zero_iff] at h
+    have hnil : hs = [] := h.1
+    subst hnil
+    have hn : notify s₁ raw = [] := by simp [notify, he]
+    simp [hn, targetsOf]
+
 end NtJ
